@@ -60,7 +60,7 @@ def _item(draw):
         undocumented = len([p for p in allp if p["name"] not in case["documented"]])
         return {"type": "definition", "kind": case["kind"], "source": c07.render(case), "undocumented": undocumented}
     # shapes whose conversion goes through a set / frozenset of strings are forced into a third of the descriptions
-    forced = draw(st.sampled_from((None, None, "mixed_literal", "union_with_str", "int_literal", "undocumented_param", "two_announcements")))
+    forced = draw(st.sampled_from((None, None, "mixed_literal", "union_with_str", "int_literal", "undocumented_param", "two_announcements", "str_with_bracket")))
     return {"type": "ir", "ir": draw(domain.ir_strategy(allowed=ALL_KNOBS, forced=forced, max_params=5))}
 
 
@@ -109,10 +109,21 @@ def run_case(case):
         bp0 = os.path.join(d, "batch0.json")
         with open(bp0, "w") as f:
             json.dump({"items": case["items"], "perms": []}, f)
+        bpr = os.path.join(d, "batch_rev.json")
+        with open(bpr, "w") as f:
+            json.dump({"items": case["items"], "perms": [], "order": "reverse"}, f)
         seeds = [0] + list(range(1, case["seeds"] + 1)) + ["random"] * case["randoms"]
-        with ThreadPoolExecutor(max_workers=min(16, len(seeds))) as ex:
+        with ThreadPoolExecutor(max_workers=min(16, len(seeds) + 1)) as ex:
+            fut_rev = ex.submit(_child, bpr, 0)
             results = list(ex.map(lambda s: _child(bp if s == 0 else bp0, s), seeds))
+            rev = fut_rev.result()
         base = results[0]
+        for k, h in rev["outputs"].items():
+            if base["outputs"].get(k) != h:
+                i, conv = k.split(":", 1)
+                it = case["items"][int(i)]
+                discs.append(Disc("history:%s:%s" % (it["type"], conv), "item %s (reverse order)" % i,
+                                  "output differs when the batch is converted in reverse order in a fresh process; item %s" % json.dumps(it)[:300]))
         bad = {}
         for s, r in zip(seeds[1:], results[1:]):
             for k, h in r["outputs"].items():
